@@ -148,13 +148,15 @@ func checkContract(c contractCase) *vk.Failure {
 		m := newModel(graphCase{N: 0, Directed: true})
 		g := m.buildUnweighted().(graph.Directed)
 		switch v {
-		case 0:
-			r := vk.Call(func() { network.PageRank(g, 0.85, 1e-6) })
-			if r.Outcome != vk.Returned {
-				return vk.Failf("pagerank-dense-empty-graph-panics", "PageRank on a graph without nodes ended in %v: %s (PageRankSparse returns an empty map)", r.Outcome, r.Text)
+		case 0, 1:
+			f := network.PageRank
+			if v == 1 {
+				f = network.PageRankSparse
 			}
-		case 1:
-			return vk.MustReturn("pagerank-sparse-empty-graph-panics", func() { network.PageRankSparse(g, 0.85, 1e-6) })
+			r := vk.Call(func() { f(g, 0.85, 1e-6) })
+			if r.Outcome != vk.Returned {
+				return vk.Failf("pagerank-empty-graph-panics", "PageRank/PageRankSparse (variant %d) on a graph without nodes ended in %v: %s (nothing is documented; HITS returns an empty map)", v, r.Outcome, r.Text)
+			}
 		case 2:
 			return vk.MustReturn("hits-empty-graph-panics", func() { network.HITS(g, 1e-6) })
 		}
